@@ -1326,7 +1326,7 @@ pub fn run_n(cfg: &RunCfg, which: &str, fixed_seqs: Option<u64>) -> Report {
             rep.op(op_name(&op));
             lines.push(b.line.clone());
             let replay_hdr = vec![
-                format!("property {} seed {} seq {} (re-run: ba_harness {} --seed {} --only-seq {})", prop, cfg.seed, seq, which, cfg.seed, seq),
+                format!("property {} seed {} seq {} (re-run: ba_harness {} --seed {} --only-seq {})", prop, cfg.seed, super::seq_label(seq), which, cfg.seed, super::seq_label(seq)),
                 format!("failing step {}: {:?}", step, op),
             ];
             let bal_before: BTreeMap<Address, TokenAmount> = env.clients.iter().map(|c| c.0)
@@ -1437,7 +1437,7 @@ pub fn run_n(cfg: &RunCfg, which: &str, fixed_seqs: Option<u64>) -> Report {
         }
         if agree && lean.is_some() { rep.traces_validated += 1; }
         if std::env::var("BA_DUMP").is_ok() {
-            let hdr = vec![format!("property {} seed {} seq {} (op lines as sent to the Lean driver)", prop, cfg.seed, seq)];
+            let hdr = vec![format!("property {} seed {} seq {} (op lines as sent to the Lean driver)", prop, cfg.seed, super::seq_label(seq))];
             write_replay(&prop, &format!("dump-{}-{}", cfg.seed, seq), &hdr, &lines);
         }
         let nontrivial = published && activated && moved;
